@@ -12,7 +12,7 @@ META = dict(
     rule=('states = (wrapper, type) with wrapper in {tainted, tainted_volatile, tainted_opaque, sandbox_callback, app_pointer, tainted_boolean_hint, tainted_int_hint} and '
           'type over the base types (quick 12, thorough 27: every integer type, bool, float, double, unscoped/scoped enum, object pointers, pointer to pointer, function '
           'pointer, fixed arrays incl. 2-D and array of pointers, registered struct); transitions = forms: unary/binary/compound/increment operators with plain, nullptr, '
-          'tainted, tainted_volatile, hint and same-type right operands, plain-on-the-left forms, indexing, dereference, address-of, RLBox casts, opaque conversion, and '
+          'tainted, tainted_volatile, boolean-hint, int-hint and same-type right operands, plain-on-the-left forms, indexing, dereference, address-of, RLBox casts, opaque conversion, and '
           '43 conversion contexts (copy/direct/list initialisation of plain variables, assignment, argument passing, return, if/while/for/do/switch/?: conditions, '
           'subscript with a wrapped index, pointer arithmetic with a wrapped offset, static/functional/C-style/reinterpret casts), and the library routines over '
           'sandbox memory (memcmp with tainted / tainted_volatile / raw operands must yield exactly tainted_int_hint; memcpy, memset, grant-access copies, invocation results stay wrapped). One probe program per (state, form), '
@@ -56,8 +56,8 @@ WRAP = {'tainted': 'tn<U>', 'tainted_volatile': 'tv<U>', 'tainted_opaque': 'to<U
 ARITH_OPS_Q = ['+', '-', '*', '%', '&', '<<', '&&']
 ARITH_OPS_T = ['+', '-', '*', '/', '%', '^', '&', '|', '<<', '>>', '&&', '||']
 CMP_OPS = ['==', '!=', '<', '<=', '>', '>=']
-RHS_Q = ['pi', 'pd', 'nullptr', 'ti', 'tvi', 'y']
-RHS_T = ['pi', 'pl', 'pd', 'pb', 'nullptr', 'ti', 'tvi', 'hb', 'y']
+RHS_Q = ['pi', 'pd', 'nullptr', 'ti', 'tvi', 'hi', 'y']
+RHS_T = ['pi', 'pl', 'pd', 'pb', 'nullptr', 'ti', 'tvi', 'hb', 'hi', 'y']
 
 
 def forms(tier):
@@ -70,7 +70,7 @@ def forms(tier):
         for r in (RHS_T if th else RHS_Q):
             F.append(('bin:x%s%s' % (op, r), 'EXPR', 'VERIF_EXPR(x %s %s)' % (op, r)))
     for op in CMP_OPS:
-        for r in (RHS_T if th else ['pi', 'nullptr', 'ti', 'tvi', 'hb', 'y']):
+        for r in (RHS_T if th else ['pi', 'nullptr', 'ti', 'tvi', 'hb', 'hi', 'y']):
             F.append(('cmp:x%s%s' % (op, r), 'CMP:' + r, 'VERIF_EXPR(x %s %s)' % (op, r)))
     for l in (['pi', 'pd', 'pp', 'pb'] if th else ['pi', 'pp']):
         for op in ((ARITH_OPS_T + CMP_OPS) if th else ['+', '-', '==', '<', '&&']):
@@ -158,7 +158,7 @@ def forms(tier):
 def program(wrapper, t, code):
     # UV = value type usable for a plain variable (arrays decay to std::array to keep the probe well-formed)
     return ('using U = %s;\nusing UV = std::conditional_t<std::is_array_v<U>, rlbox::detail::c_to_std_array_t<U>, U>;\nusing W = %s;\n'
-            'void probe(W& x, W& y, int pi, long pl, double pd, bool pb, int* pp, tn<int>& ti, tv<int>& tvi, hb_t& hb, sbx_t& sb)\n{\n  %s\n}\n'
+            'void probe(W& x, W& y, int pi, long pl, double pd, bool pb, int* pp, tn<int>& ti, tv<int>& tvi, hb_t& hb, hi_t& hi, sbx_t& sb)\n{\n  %s\n}\n'
             % (t, WRAP[wrapper], code))
 
 
@@ -194,7 +194,7 @@ def judge(wrapper, t, fid, kind, accepted, diag):
         return ('plain-value-obtained', 'conversion context %s compiles: a plain value is obtained without a named unwrapper' % fid)
     if kind.startswith('CMP'):
         r = kind.split(':')[1]
-        involves_volatile = wrapper == 'tainted_volatile' or r in ('tvi', 'hb') or wrapper in ('tainted_boolean_hint',)
+        involves_volatile = wrapper == 'tainted_volatile' or r in ('tvi', 'hb', 'hi') or wrapper in ('tainted_boolean_hint', 'tainted_int_hint')
         if plain:
             if ptr_null_test_ok and r == 'nullptr' and fid[4:].startswith(('x==', 'x!=')):
                 return None
